@@ -136,6 +136,9 @@ def rand_domain(g):
     g.count("domain_kind", kind)
     elems = rng.sample(["low", "mid", "high", 1, 2.5, True, "two words"], rng.randint(1, 4))
     irange = (rng.randint(-20, 5), rng.randint(5, 50))
+    if rng.random() < 0.25:
+        # integer bounds no double can hold
+        irange = rng.choice([(2**53 + 1, 2**53 + 1), (2**53 + 1, 2**53 + 5), (-(2**60) - 3, -(2**60) - 1), (10**22 + 7, 10**22 + 9)])
     frange = rng.choice([(0.5, 2.75), (0.0, 1.0), (-3.25, 3.5), (10.0, 10.5), (1, 2.5), (0.125, 4)])
     if kind == "elems":
         return dict(ranges=[], elems=elems)
